@@ -2,14 +2,14 @@ SPECIFICATION Spec
 CONSTANTS
   SnapFix = TRUE
   DedupFix = TRUE
-  Nodes = {n1, n2, n3}
+  Nodes = {n1}
   NoNode = NoNode
-  Txs = {t1, t2}
-  MaxLog = 3
-  MaxProp = 3
-  MaxCrash = 1
-  MaxLC = 1
-  MaxDup = 0
+  Txs = {t1, t2, t3}
+  MaxLog = 5
+  MaxProp = 6
+  MaxCrash = 3
+  MaxLC = 3
+  MaxDup = 1
   SnapCount = 2
   MaxLagNodes = 1
 INVARIANTS Inv_C20_Contiguous Inv_C20_AtMostOnce Inv_C20_SameContent Inv_C20_NoSkip Inv_C20_TxOnce Inv_Canon Inv_C20_NoSkipModel
